@@ -1152,6 +1152,7 @@ def _gen_basis(ctx, cases, state):
     from skfem.utils import _flatten_dofs
     rng = ctx.rng
     cfgs = [(skfem.MeshTri(), skfem.ElementTriP2()), (skfem.MeshTri().refined(1), skfem.ElementTriP1()),
+            (skfem.MeshTri(), skfem.ElementVector(skfem.ElementTriP1())), (skfem.MeshTri(), skfem.ElementVector(skfem.ElementTriP2())),
             (skfem.MeshQuad(), skfem.ElementQuad2()), (skfem.MeshTet(), skfem.ElementTetP1()),
             (skfem.MeshLine().refined(2), skfem.ElementLineP2())]
     if not ctx.quick():
@@ -1165,12 +1166,19 @@ def _gen_basis(ctx, cases, state):
         else:
             parts = {'left': basis.get_dofs(lambda x: x[0] == 0.0), 'bottom': basis.get_dofs(lambda x: x[1] == 0.0),
                      'right': basis.get_dofs(lambda x: x[0] == 1.0)}
+        if isinstance(e, skfem.ElementVector):
+            # views carrying DIFFERENT name filters (keep / drop / skip): a dict of them denotes the union of the
+            # individually filtered sets
+            names = sorted(set(e.dofnames))
+            parts = {'left': parts['left'].keep(names[0]), 'bottom': parts['bottom'].keep(names[-1]),
+                     'right': parts['right'].drop(names[0]),
+                     'top': basis.get_dofs(lambda x: x[1] == 1.0, skip=[names[-1]])}
         for rep_i in range(ctx.n(3, 8)):
             csr = rand_csr(rng, n, empty_p=0.2)
             b = [rng.randint(-9, 9) for _ in range(n)]
             x = [rng.randint(-9, 9) for _ in range(n)]
             names = rng.sample(sorted(parts), rng.randint(1, len(parts)))
-            if rng.random() < 0.5:
+            if rng.random() < (0.25 if isinstance(e, skfem.ElementVector) else 0.5):
                 view = parts[names[0]]
                 S = [int(i) for i in view.flatten()]
                 Sarg, vl = view, None
